@@ -20,8 +20,8 @@ typedef GenericDocument<DNode<SimpleAllocator>> FreeDoc;
 static const std::vector<std::string> kStatic = {"", "static-a", "static string with \"quotes\"", "0123456789abcdef0123456789abcdef0123456789abcdef"};
 
 // a "history": how a document holding value v is produced
-enum Hist { H_PARSE, H_PARSE_WS, H_BUILD, H_BUILD_PERMUTED, H_COPY, H_REPARSE_DUMP, H_DIRTY, H_RESERVED, H_MAPPED, H_CONST_STRINGS, H_COUNT };
-static const char* kHistName[] = {"parse", "parse-ws", "build", "build-permuted", "copy", "reparse-dump", "prior-kind", "extra-capacity", "with-map", "const-strings"};
+enum Hist { H_PARSE, H_PARSE_WS, H_BUILD, H_BUILD_PERMUTED, H_COPY, H_REPARSE_DUMP, H_DIRTY, H_RESERVED, H_MAPPED, H_CONST_STRINGS, H_MAP_FIRST, H_COUNT };
+static const char* kHistName[] = {"parse", "parse-ws", "build", "build-permuted", "copy", "reparse-dump", "prior-kind", "extra-capacity", "with-map", "const-strings", "map-first"};
 
 static MV permuted(Src& s, const MV& v) {
   MV o = v;
@@ -106,6 +106,31 @@ static void build_const(N& dst, const MV& m, A& a) {
     build(dst, m, a, true);
 }
 
+// every object gets its lookup map BEFORE its members are added, and every key reaches AddMember (copyKey) through one scratch
+// buffer that is overwritten right afterwards: the object must have kept its own copy of the key, in the map too
+template <class N, class A>
+static void build_map_first(N& dst, const MV& m, A& a) {
+  static char scratch[512];
+  if (m.k == MV::Arr) {
+    dst.SetArray();
+    for (auto& e : m.a) { N c; build_map_first(c, e, a); dst.PushBack(std::move(c), a); }
+  } else if (m.k == MV::Obj) {
+    dst.SetObject();
+    dst.CreateMap(a);
+    for (auto& kv : m.o) {
+      N c;
+      build_map_first(c, kv.second, a);
+      if (kv.first.size() <= sizeof scratch) {
+        memcpy(scratch, kv.first.data(), kv.first.size());
+        dst.AddMember(StringView(scratch, kv.first.size()), std::move(c), a, true);
+        memset(scratch, 'Z', sizeof scratch);
+      } else
+        dst.AddMember(StringView(kv.first.data(), kv.first.size()), std::move(c), a, true);
+    }
+  } else
+    build(dst, m, a, true);
+}
+
 template <class DocT>
 static std::string make(Src& s, DocT& d, const MV& v, int h) {
   auto& a = d.GetAllocator();
@@ -130,6 +155,7 @@ static std::string make(Src& s, DocT& d, const MV& v, int h) {
     case H_DIRTY: build_dirty(s, d, v, a); break;
     case H_RESERVED: build(d, v, a, true); add_capacity(s, static_cast<typename DocT::NodeType&>(d), a); break;
     case H_MAPPED: build(d, permuted(s, v), a, true); add_maps(static_cast<typename DocT::NodeType&>(d), a); break;
+    case H_MAP_FIRST: build_map_first(static_cast<typename DocT::NodeType&>(d), v, a); break;
     default: build_const(d, v, a); break;
   }
   if (d.HasParseError()) return "ORACLE-SELF-CHECK: generated text rejected";
